@@ -2464,6 +2464,12 @@ class LazyStackedTensorDict(TensorDictBase):
                 for i, _idx in converted_idx.items():
                     self_idx = (slice(None),) * split_index["mask_dim"] + (i,)
                     result.append(self[self_idx][_idx])
+                if result and all(is_non_tensor(item) for item in result):
+                    # non-tensor pieces (NonTensorData / NonTensorStack, possibly mixed):
+                    # torch.cat has no handler for the mix and would keep one payload
+                    from tensordict.tensorclass import NonTensorData
+
+                    return NonTensorData._cat_non_tensor(result, cat_dim)
                 return torch.cat(result, cat_dim)
         elif is_nd_tensor:
             new_stack_dim = self.stack_dim - num_single + num_none
